@@ -20,6 +20,16 @@ func marshalHeaps(g *Gen) (n, seq, out string) {
 	return
 }
 
+// marshalTryHeaps: the ghost sequence of ALL xml.Marshal / xml.MarshalIndent calls, accepted or refused (count, values), so
+// that a contract can say that the serialiser was called, and with which value, also on the paths where it reports an error
+// (marshalTried(), marshalTriedAt(i)).
+func marshalTryHeaps(g *Gen) (n, seq string) {
+	n, seq = "G_ghost_marshtryn", "G_ghost_marshtryseq"
+	g.TE.noteHeapRaw(n, SInt)
+	g.TE.noteHeapRaw(seq, "(Array Int Iface)")
+	return
+}
+
 func extMarshal(f *frame, cm *ssa.CallCommon, args []Val, st *State, name string, resT types.Type, pos token.Pos) Val {
 	c := f.c
 	g := c.g
@@ -31,10 +41,14 @@ func extMarshal(f *frame, cm *ssa.CallCommon, args []Val, st *State, name string
 		v = g.makeIface(v, cm.Args[0].Type())
 	}
 	n, seq, out := st.Heap(nH), st.Heap(seqH), st.Heap(outH)
+	tnH, tseqH := marshalTryHeaps(g)
+	tn, tseq := st.Heap(tnH), st.Heap(tseqH)
+	st.heaps[tseqH] = c.define("marshtryseq", "(Array Int Iface)", fmt.Sprintf("(store %s %s %s)", tseq, tn, v))
+	st.heaps[tnH] = c.define("marshtryn", SInt, fmt.Sprintf("(+ %s 1)", tn))
 	ok := fmt.Sprintf("(= (itag %s) 0)", err.T)
 	st.heaps[seqH] = c.define("marshseq", "(Array Int Iface)", fmt.Sprintf("(ite %s (store %s %s %s) %s)", ok, seq, n, v, seq))
 	st.heaps[outH] = c.define("marshout", "(Array Int Slice)", fmt.Sprintf("(ite %s (store %s %s %s) %s)", ok, out, n, bs.T, out))
 	st.heaps[nH] = c.define("marshn", SInt, fmt.Sprintf("(ite %s (+ %s 1) %s)", ok, n, n))
-	c.assumed["external "+cm.StaticCallee().String()+": total, writes no modelled memory, result unconstrained; a ghost sequence records the value and the returned bytes of every successful call"] = true
+	c.assumed["external "+cm.StaticCallee().String()+": total, writes no modelled memory, result unconstrained; ghost sequences record the value of every call and the value and returned bytes of every successful call"] = true
 	return r
 }
